@@ -27,7 +27,7 @@ type HookProgram struct {
 	OrderedReady  bool       `json:"orderedReady,omitempty"` // ... and Ready
 	StatusMode    int        `json:"statusMode"`             // 0 null, 1 {}, 2 counts+echo, 3 with own Updated condition, 4 own observedGeneration
 	FinalizeMode  int        `json:"finalizeMode"`           // 0 drop all; 1 keep all; 2 drop last observed per call
-	FinalizedMode int        `json:"finalizedMode"`          // 0 iff no children observed; 1 always; 2 never
+	FinalizedMode int        `json:"finalizedMode"`          // 0 iff no children observed; 1 always; 2 never; 3 iff spec.template.v == v2
 	ResyncAfter   float64    `json:"resyncAfter,omitempty"`
 	// decorator
 	Labels      map[string]*string `json:"labels,omitempty"`
@@ -260,8 +260,17 @@ func (p *HookProgram) eval(sim *vs.Server, parent, observed map[string]any, fina
 			resp["finalized"] = nObs == 0
 		case 1:
 			resp["finalized"] = true
+		case 3:
+			// depends on a revisioned parent field: live revisions can disagree
+			v, _ := getPath(parent, "spec.template.v")
+			resp["finalized"] = v == "v2"
 		default:
 			resp["finalized"] = false
+		}
+		if f, _ := resp["finalized"].(bool); f && p.FinalizedMode != 3 {
+			// a hook that declares itself finalized no longer desires children
+			// (anything else is a contradictory answer, outside the input contract)
+			desired = nil
 		}
 	}
 	if desired == nil {
